@@ -230,22 +230,42 @@ def r3_join_or_die(report, repo):
                  'join() in the wait loop has no finite timeout (%s): a stuck '
                  'body blocks the executor past the deadline' %
                  (norm(a) if a is not None else 'none'))
-  dl = [n for n in walk_no_nested(f.node) if isinstance(n, ast.Assign) and
-        any(core.is_name(x, dln) for x in n.targets)]
-  ok = len(dl) == 2 and all(
-      isinstance(d.value, ast.BinOp) and isinstance(d.value.op, ast.Add) and
-      call_name(d.value.left) == 'time.monotonic' for d in dl)
-  if ok:
-    rhs = sorted(dotted(d.value.right) or '' for d in dl)
-    ok = rhs == ['DEFAULT_PHASE_TIMEOUT_S', 'self._phase_desc.options.timeout_s']
-    g0 = lib.cfg(f)
-    opt = [n for n in g0.nodes if n.kind == 'stmt' and n.ast in dl and
-           dotted(n.ast.value.right) == 'self._phase_desc.options.timeout_s']
-    ok = ok and all(g0.dominated_by_edge(
-        n, lambda s, l, d: s.kind == 'test' and l == 'T' and isinstance(
-            s.ast, ast.Compare) and dotted(s.ast.left) ==
-        'self._phase_desc.options.timeout_s' and isinstance(
-            s.ast.ops[0], ast.IsNot)) for n in opt)
+  # the deadline the loop compares against, per way of getting there: now +
+  # the phase's timeout_s when that is given, else now + the default
+  OPT = 'self._phase_desc.options.timeout_s'
+  g0 = lib.cfg(f)
+
+  def cl_dl(expr, steps):
+    if isinstance(expr, ast.Compare) and len(expr.ops) == 1 and isinstance(
+        expr.ops[0], (ast.Is, ast.IsNot)) and isinstance(
+            expr.comparators[0], ast.Constant) and \
+        expr.comparators[0].value is None and cfgm.path_dotted(
+            cfgm.Path(steps, None), expr.left) == OPT:
+      return 'has_opt' if isinstance(expr.ops[0], ast.IsNot) else (
+          'not', 'has_opt')
+    return None
+  ok = True
+  seen = set()
+  for val in ({'has_opt': True}, {'has_opt': False}):
+    for p in cfgm.walk_paths(g0, lib.make_decider(val, cl_dl)):
+      idx = [i for i, (n, _) in enumerate(p.steps)
+             if n.kind == 'test' and n.ast is lp.test]
+      if not idx:
+        continue
+      e = cfgm.path_resolve(p, ast.Name(id=dln, ctx=ast.Load()),
+                            before_index=idx[0])
+      good = isinstance(e, ast.BinOp) and isinstance(e.op, ast.Add) and \
+          call_name(e.left) == 'time.monotonic'
+      if good:
+        # the amount added, read where the deadline was computed
+        di = max(i for i, (n, _) in enumerate(p.steps[:idx[0]])
+                 if n.kind == 'stmt' and isinstance(n.ast, ast.Assign) and
+                 n.ast.value is e)
+        amount = cfgm.path_dotted(p, e.right, before_index=di)
+        good = amount == (OPT if val['has_opt'] else 'DEFAULT_PHASE_TIMEOUT_S')
+      seen.add(val['has_opt'])
+      ok = ok and good
+  ok = ok and seen == {True, False}
   report.check(ok, rule, f.qualname, 'deadline', f.node,
                'deadline = monotonic() + timeout_s if given else + '
                'DEFAULT_PHASE_TIMEOUT_S')
